@@ -455,6 +455,15 @@ def check_links(st, col, doc, E, base, opts_list, tag):
         if bad >= 0:
             st.add(clause, tag, FN_L, inp, {"link": out[bad], "all": out},
                    "each link, in document order, is %s an href of %r" % ("canonicalize_url of the resolution of" if cz else "(the resolution against the base of)", E), size)
+        else:
+            # the same sentence read on the href: a link never comes from an href that should_follow_href rejects
+            # (only evaluated when the link can be placed at all, so that one defect gives one clause)
+            col.count("link-from-followable-href")
+            fc = [c if pred("follow", h) == ("ok", True) else () for h, c in zip(E, cands)]
+            bad = embed(out, fc)
+            if bad >= 0:
+                st.add("link-from-followable-href", tag, FN_L, inp, {"link": out[bad], "all": out},
+                       "every link comes from an href accepted by should_follow_href; hrefs: %r" % (E,), size)
         for h, want in rel_expect:
             col.count("relative-href-resolved")
             if not (want & set(out)):
@@ -479,7 +488,9 @@ def layer_a(st, col, first, maxlen, links_every):
                 for x in seq:
                     for raw in PIECE[x][1]:
                         built.append(R.final(raw)[0])
-            tag = "A:" + "+".join(sorted(set(seq)))
+            # witness tag: the ambiguous pieces when there are some, else the non-text pieces
+            special = sorted(set(x for x in seq if PIECE[x][1] is None)) or sorted(set(x for x in seq if x[0] != "T"))
+            tag = "A:" + "+".join(special)
             E = check_urls(st, col, doc, tag, built)
             if E or any(x[0] == "S" for x in seq):
                 col.nontriv(("A", tuple(E or ()), any(x[0] == "S" for x in seq), amb))
